@@ -62,6 +62,8 @@ type Module struct {
 	refs       map[*ssa.Function][]ssa.Instruction
 	chaMemo    map[string]*ssa.Function
 	allFuncs   []*ssa.Function
+	mapCopy    map[*ssa.Function]bool
+	renames    map[string]string // anchors resolved to a renamed function (names.go)
 	gfCache    map[*ssa.Global]*ssa.Function
 	pdomCache  map[*ssa.Function]*postDom
 	getterMemo map[*ssa.Function]getterInfo
@@ -263,6 +265,9 @@ func (m *Module) tpkg(path string) *packages.Package {
 func (m *Module) fn(pkg, name string) *ssa.Function {
 	f := m.pkg(pkg).Func(name)
 	if f == nil {
+		f = m.renamed(pkg, "", name)
+	}
+	if f == nil {
 		panic(anchorErr{fmt.Sprintf("anchor function not found: %s.%s", pkg, name)})
 	}
 	return f
@@ -300,6 +305,9 @@ func (m *Module) named(pkg, typ string) *types.Named {
 // method returns the method typ.name (pointer or value receiver).
 func (m *Module) method(pkg, typ, name string) *ssa.Function {
 	f := m.methodOpt(pkg, typ, name)
+	if f == nil {
+		f = m.renamed(pkg, typ, name)
+	}
 	if f == nil {
 		panic(anchorErr{fmt.Sprintf("anchor method not found: %s.%s.%s", pkg, typ, name)})
 	}
@@ -562,22 +570,23 @@ func (c *Ctx) finish(verifDir string, explanation string, assumptions []string, 
 		"seed":        seedFromEnv(),
 		"level":       "other",
 		"coverage": map[string]interface{}{
-			"explanation":         explanation,
-			"rule":                "static analysis: obligations are enumerated from the type-checked program and its SSA form by the rules listed under 'rules'; an obligation is one (rule, construct) pair, keyed by rule and construct name, and is non-trivial by construction (each names a distinct site of the code that has to satisfy the rule)",
-			"obligations":         total,
-			"discharged":          discharged,
-			"evaluations":         total,
-			"distinct_nontrivial": len(distinct),
-			"exhaustive":          true,
-			"rules":               stats,
-			"samples":             samples,
-			"not_decided":         notDecided,
-			"packages_analysed":   pkgs,
-			"functions_in_ssa":    c.M.NFuncs,
-			"build_configurations": cfgs,
-			"notes":               c.notes,
+			"explanation":            explanation,
+			"rule":                   "static analysis: obligations are enumerated from the type-checked program and its SSA form by the rules listed under 'rules'; an obligation is one (rule, construct) pair, keyed by rule and construct name, and is non-trivial by construction (each names a distinct site of the code that has to satisfy the rule)",
+			"obligations":            total,
+			"discharged":             discharged,
+			"evaluations":            total,
+			"distinct_nontrivial":    len(distinct),
+			"exhaustive":             true,
+			"rules":                  stats,
+			"samples":                samples,
+			"not_decided":            notDecided,
+			"packages_analysed":      pkgs,
+			"functions_in_ssa":       c.M.NFuncs,
+			"build_configurations":   cfgs,
+			"notes":                  c.notes,
+			"renamed_anchors":        c.M.renames,
 			"known_findings_matched": knownHits,
-			"checker_cmd":         fmt.Sprintf("bin/nricheck -repo %s -property %s -tier %s", c.Repo, c.Prop, c.Tier),
+			"checker_cmd":            fmt.Sprintf("bin/nricheck -repo %s -property %s -tier %s", c.Repo, c.Prop, c.Tier),
 		},
 		"assumptions": assumptions,
 		"wall_s":      time.Since(c.Start).Seconds(),
